@@ -325,7 +325,7 @@ class NormProfile(FieldProfile):
     )
 
     def _draw_config(self, rng):
-        return {
+        cfg = {
             "ndim": rng.choice([1, 2, 3, 3]),
             "family": rng.choice(["dyadic", "nm"]),
             "steps": rng.randint(3, 30),
@@ -334,7 +334,11 @@ class NormProfile(FieldProfile):
             "mag": rng.choice(["unit", "wide", "zeros"]),
             "norm_fields": rng.random() < 0.5,
             "p_badnorm": rng.choice([0.0, 0.05, 0.1]),
+            "bigmesh": False,
         }
+        if rng.random() < 0.015:
+            cfg.update(bigmesh=True, steps=5, pool=4, norm_fields=False, p_badnorm=0.0)
+        return cfg
 
     def table(self, rng, cfg, nvdim):
         if cfg["mag"] == "unit" or rng.random() < 0.3:
@@ -353,6 +357,8 @@ class NormProfile(FieldProfile):
             if rng.random() < 0.5:
                 o["squeeze"] = True
             return o
+        if r < 0.8:
+            return {"t": "fnred", "u": float(max(mm.cell)) * 8}
         return {"t": "fn", "a": tab, "scalar_ok": rng.random() < 0.5}
 
     def gen_op(self, rng, st):
@@ -366,7 +372,22 @@ class NormProfile(FieldProfile):
             o = queue.pop(0)
             return dict(o, out=out) if st.has(o["on"], "M") else None
         if not meshes:
+            if cfg.get("bigmesh"):
+                # above 2**15 cells (vectorised code paths, if any)
+                st.stats.probe("big_mesh")
+                nb = {1: [36001], 2: [190, 190], 3: [34, 33, 33]}[cfg["ndim"]]
+                spec = self.ensure_mesh(rng, st, 10**6, 0)
+                pmin = [min(a, b) for a, b in zip(spec["p1"], spec["p2"])]
+                u = Geo(cfg["family"]).u
+                spec.update(p1=pmin, p2=[a + k * u for a, k in zip(pmin, nb)], n=nb, subs=[], bc="")
+                spec.pop("intcorners", None)
+                spec.pop("intsubs", None)
+                return spec
             return self.ensure_mesh(rng, st, cfg["max_cells"], 0)
+        if cfg.get("bigmesh") and fields and not st.extra.get("big_done"):
+            st.extra["big_done"] = True
+            mmb = st.h[fields[0]].box.v
+            return {"op": "F.setnorm", "on": fields[0], "spec": {"t": "fnred", "u": float(max(mmb.cell)) * 8}}
         if not fields or rng.random() < 0.12:
             ms = rng.choice(meshes)
             nvdim = rng.choice([1, 2, 3, 3, 4])
